@@ -219,4 +219,33 @@ def encode (lead : Nat) (items : List Item) : List (Nat × List Nat) :=
   let l := layout lead items
   (chunks l.length l).map (fun c => (bpOf c, c.map (·.2)))
 
+
+/-! ## the sender validates its own output (translation validation) -/
+
+/-- executable `Admissible` -/
+def admissibleB1 (ph : Ph) (bp : Nat) (pl : List Nat) : Bool :=
+  decide (pl.length = 39) && decide (bp ≤ 13) &&
+  (match ph with
+   | .idle =>
+     (decide (bp = 13) && pl.all (fun b => unham8 b == some 0x3)) ||
+     (decide (bp < 13) && (pl.take (3 * bp)).all (fun b => unham8 b == some 0x3) &&
+       ((pl[3 * bp]?).bind unham8 == some 0xC))
+   | _ => true)
+
+/-- executable `AdmissibleAll` -/
+def admissibleB (ph : Ph) : List (Nat × List Nat) → Bool
+  | [] => true
+  | (bp, pl) :: r => admissibleB1 ph bp pl && admissibleB (run ph [] pl).ph r
+
+/-- the items as blocks, for `delivered` -/
+def itemBlocks (items : List Item) : List (Blk × Nat) := items.map (fun it => (⟨it.app, it.data⟩, it.gap))
+
+/-- `encode`, but the sender checks that every block pointer it produced is usable and that the
+    grammar reads exactly its blocks back from the stream it produced; `none` if not -/
+def encodeChecked (lead : Nat) (items : List Item) : Option (List (Nat × List Nat)) :=
+  let rows := encode lead items
+  if admissibleB .idle rows &&
+      decide (run .idle [] (rows.map (·.2)).flatten = ⟨.idle, delivered (itemBlocks items), true⟩)
+  then some rows else none
+
 end Zvbi.Pfc.Spec
